@@ -56,19 +56,19 @@ Print Assumptions C14_real_time_respected.
 Print Assumptions C14_atomic_steps_linearizable.
 
 (* ---- for the database model: what bin/check evaluates ---- *)
-Theorem C14_db_check_sound_complete : forall cs live disk g h,
-  Run_C14.check (LCase cs h live disk g) = true <->
-  exists l, Permutation l h /\ rt_ok l /\ legal (lin_db_step cs) result_beq start l
-            /\ fin_ok live disk g (final (lin_db_step cs) start l) = true.
-Proof. exact db_lin_check_iff. Qed.
+Theorem C14_db_check_sound_complete : forall cs d0 g0 live disk g h,
+  Run_C14.check (LCase cs d0 g0 h live disk g) = true <->
+  exists l, Permutation l h /\ rt_ok l /\ legal (lin_db_step cs) result_beq (state_of_dump d0 g0) l
+            /\ fin_ok live disk g (final (lin_db_step cs) (state_of_dump d0 g0) l) = true.
+Proof. intros cs d0 g0 live disk g h. exact (db_lin_check_iff cs (state_of_dump d0 g0) live disk g h). Qed.
 Print Assumptions C14_db_check_sound_complete.
 
 (* no false alarm on the one-mutex design over the database model *)
-Theorem C14_db_design_accepted : forall cs tr m h,
-  mrun (lin_db_step cs) (minit lop (result V) start) tr = Some m -> complete m ->
+Theorem C14_db_design_accepted : forall cs d0 g0 tr m h,
+  mrun (lin_db_step cs) (minit lop (result V) (state_of_dump d0 g0)) tr = Some m -> complete m ->
   Permutation h (history_of (fun r => r) m) ->
-  Run_C14.check (LCase cs h (live_of (kv (m_sh m))) (disk_of (kv (m_sh m))) (gen (m_sh m))) = true.
-Proof. exact db_design_accepted. Qed.
+  Run_C14.check (LCase cs d0 g0 h (live_of (kv (m_sh m))) (disk_of (kv (m_sh m))) (gen (m_sh m))) = true.
+Proof. intros cs d0 g0. exact (db_design_accepted cs (state_of_dump d0 g0)). Qed.
 Print Assumptions C14_db_design_accepted.
 
 (* ---- non-vacuity ---- *)
@@ -78,21 +78,21 @@ Definition nA : name := [x61].
 (* two overlapping puts of different values, a get overlapping both: accepted, and the
    final state is the one after put 1; put 2 *)
 Example good_history_accepted :
-  Run_C14.check (LCase [su]
+  Run_C14.check (LCase [su] [] 1
     [LC 1 4 0 (OPut nA 1) (RVer 1); LC 2 6 0 (OPut nA 2) (RVer 2); LC 3 5 0 (OGet nA) (RVal 1 1)]
     [(nA, [(1,1);(2,2)], 1)] [(nA, [(1,1);(2,2)], 1, 2)] 3) = true.
 Proof. vm_compute. reflexivity. Qed.
 
 (* two puts of different values answered with the same version: rejected *)
 Example same_version_twice_rejected :
-  Run_C14.check (LCase [su]
+  Run_C14.check (LCase [su] [] 1
     [LC 1 4 0 (OPut nA 1) (RVer 1); LC 2 6 0 (OPut nA 2) (RVer 1)]
     [(nA, [(1,2)], 1)] [(nA, [(1,2)], 1, 1)] 2) = false.
 Proof. vm_compute. reflexivity. Qed.
 
 (* a get pairing version 1's number with version 2's bytes: rejected *)
 Example torn_get_rejected :
-  Run_C14.check (LCase [su]
+  Run_C14.check (LCase [su] [] 1
     [LC 1 2 0 (OPut nA 1) (RVer 1); LC 3 4 0 (OPut nA 2) (RVer 2);
      LC 5 8 0 (OActivate nA 2) ROk; LC 6 7 0 (OGet nA) (RVal 1 2)]
     [(nA, [(1,1);(2,2)], 2)] [(nA, [(1,1);(2,2)], 2, 2)] 4) = false.
@@ -101,7 +101,7 @@ Proof. vm_compute. reflexivity. Qed.
 (* a stale read AFTER the write had returned: every response is explainable by some order,
    but not by one that respects real time: rejected *)
 Example stale_read_rejected :
-  Run_C14.check (LCase [su]
+  Run_C14.check (LCase [su] [] 1
     [LC 1 2 0 (OPut nA 1) (RVer 1); LC 3 4 0 (OGet nA) RNotFound]
     [(nA, [(1,1)], 1)] [(nA, [(1,1)], 1, 1)] 2) = false.
 Proof. vm_compute. reflexivity. Qed.
@@ -109,7 +109,7 @@ Proof. vm_compute. reflexivity. Qed.
 (* all responses fine but the file at the end lost the second put (a save that overtook
    another): rejected by the final-state part *)
 Example lost_save_rejected :
-  Run_C14.check (LCase [su]
+  Run_C14.check (LCase [su] [] 1
     [LC 1 4 0 (OPut nA 1) (RVer 1); LC 2 6 0 (OPut nA 2) (RVer 2)]
     [(nA, [(1,1);(2,2)], 1)] [(nA, [(1,1)], 1, 1)] 3) = false.
 Proof. vm_compute. reflexivity. Qed.
@@ -118,14 +118,14 @@ Proof. vm_compute. reflexivity. Qed.
 Definition demo_trace : list (event lop) :=
   [EInv 0 (0%nat, OPut nA 1); EInv 1 (0%nat, OPut nA 2); ELin 1; EInv 2 (0%nat, OGet nA); ELin 0; ERet 1; ELin 2; ERet 2; ERet 0].
 Example machine_runs :
-  match mrun (lin_db_step [su]) (minit lop (result V) start) demo_trace with
+  match mrun (lin_db_step [su]) (minit lop (result V) (state_of_dump [] 1)) demo_trace with
   | Some m => Nat.eqb (length (m_lin m)) 3 && forallb (fun r => has (l_id r) (m_rets m)) (m_lin m)
-              && Run_C14.check (LCase [su] (history_of (fun r => r) m) (live_of (kv (m_sh m))) (disk_of (kv (m_sh m))) (gen (m_sh m)))
+              && Run_C14.check (LCase [su] [] 1 (history_of (fun r => r) m) (live_of (kv (m_sh m))) (disk_of (kv (m_sh m))) (gen (m_sh m)))
   | None => false
   end = true.
 Proof. vm_compute. reflexivity. Qed.
 
 (* a trace in which a call returns before its step is not an execution of the design *)
 Example not_an_execution :
-  mrun (lin_db_step [su]) (minit lop (result V) start) [EInv 0 (0%nat, OPut nA 1); ERet 0] = None.
+  mrun (lin_db_step [su]) (minit lop (result V) (state_of_dump [] 1)) [EInv 0 (0%nat, OPut nA 1); ERet 0] = None.
 Proof. vm_compute. reflexivity. Qed.
